@@ -40,9 +40,12 @@ def rand_k(rng, shp, R):
 
 def rand_t(rng, shp, sparse_core=False):
     cshape = [rng.randint(1, 2) for _ in shp]
-    core = tgen.rand_dense(rng, cshape, rng.choice([0.5, 1.0]))
-    return {"cshape": cshape, "core": core, "factors": [rand_matrix(rng, d, c) for d, c in zip(shp, cshape)],
-            "sparse_core": sparse_core}
+    core = tgen.rand_dense(rng, cshape, rng.choice([0.5, 1.0]) if not sparse_core else rng.choice([0.0, 0.3, 0.5, 1.0]))
+    T = {"cshape": cshape, "core": core, "factors": [rand_matrix(rng, d, c) for d, c in zip(shp, cshape)],
+         "sparse_core": sparse_core}
+    if sparse_core:      # the stored coordinate list of the core, in any stored order
+        T["csubs"], T["cvals"] = tgen.dense_to_sparse(cshape, core, rng, rng.choice(["sorted", "reversed", "random"]))
+    return T
 
 
 def _forms(rng, r, c, N):
@@ -62,6 +65,19 @@ def _bad_dims(rng, N):
         c = [rng.randint(0, N) for _ in range(rng.randint(0, N + 1))]
         if sorted(r + c) != list(range(N)):
             return r, c
+
+
+def _rand_req(rng, N):
+    """an admissible to_tenmat request in any argument form"""
+    form = rng.choice(["both", "both", "r", "c", "cy"])
+    if form == "cy":
+        return {"rd": [rng.randrange(N)], "cd": None, "cy": rng.choice(["fc", "bc", "t"])}
+    r, c = rng.choice(ordered_partitions(N))
+    if form == "r":
+        return {"rd": r, "cd": None, "cy": None}
+    if form == "c":
+        return {"rd": None, "cd": c, "cy": None}
+    return {"rd": r, "cd": c, "cy": None}
 
 
 def gen_ctor_cases(rng, big):
@@ -122,6 +138,9 @@ def gen_ctor_cases(rng, big):
             a["rd"], a["cd"] = [N], list(range(N))
         n = math.prod(a["dshape"]) if a["dshape"] is not None else 0
         a["data"] = [rng.randint(-3, 4) for _ in range(n)]
+        if rng.random() < 0.5:
+            a["lay"] = rng.choice(LAYOUTS)
+            a["copy"] = rng.random() < 0.5
         cases.append(Case("tenmat_ctor", a, kind in ("ok", "ok1d", "notshape", "regroup") and n > 1))
     # ---- sptenmat
     for _ in range(320 if big else 90):
@@ -232,10 +251,15 @@ def gen_cases_conv(rng, tier):
     for _ in range(120 if big else 30):
         tshape = tgen.rand_shape(rng, maxn=4, maxcells=48)
         r, c = rng.choice(ordered_partitions(len(tshape)))
+        if rng.random() < 0.2:                   # fully vectorised: N x 1 / 1 x N
+            allm = rng.sample(range(len(tshape)), len(tshape))
+            r, c = (allm, []) if rng.random() < 0.5 else ([], allm)
         R = math.prod(tshape[k] for k in r)
         C = math.prod(tshape[k] for k in c)
         mat = tgen.rand_dense(rng, [R, C], rng.choice([0.0, 0.3, 0.6, 1.0]))
         a = {"tshape": tshape, "rd": r, "cd": c, "mshape": [R, C], "mdata": mat, "coo": rng.random() < 0.5}
+        if not a["coo"] and rng.random() < 0.6:
+            a["lay"] = rng.choice(LAYOUTS)
         if a["coo"]:
             # the scipy matrix as raw triples in a random stored order, sometimes with a position split into two stored
             # values (scipy sums them) or with an explicitly stored zero
@@ -259,7 +283,15 @@ def gen_cases_conv(rng, tier):
     kshapes += [tgen.rand_shape(rng, maxn=5, maxcells=96) for _ in range(60 if big else 10)]
     for shp in kshapes:
         for R in ([0, 1, 2, 3] if (big or len(shp) <= 3) else [rng.choice([1, 2, 3]), 0]):
-            cases.append(Case("kfull", {"shape": shp, "K": rand_k(rng, shp, R)}, math.prod(shp) > 1 and R > 0))
+            cases.append(Case("kfull", {"shape": shp, "K": rand_k(rng, shp, R), "treq": _rand_req(rng, len(shp))},
+                              math.prod(shp) > 1 and R > 0))
+            if R > 0:
+                K = rand_k(rng, shp, R)
+                K["lay"] = [rng.choice(LAYOUTS + ["F"]) for _ in range(rng.randint(1, 3))]
+                cases.append(Case("kfull", {"shape": shp, "K": K, "treq": _rand_req(rng, len(shp))}, math.prod(shp) > 1))
+                K = rand_k(rng, shp, R)          # mixed element types of the factor matrices (integer before float and vice versa)
+                K["dt"] = [rng.choice(["i", "i", "f4", "f4h", "f8", "f8h"]) for _ in range(rng.randint(2, 4))]
+                cases.append(Case("kfull", {"shape": shp, "K": K, "treq": _rand_req(rng, len(shp))}, math.prod(shp) > 1))
     # ---------------- Tucker -> dense
     tshapes = [[3], [2, 3], [3, 1], [2, 3, 4], [4, 1, 3], [2, 3, 2, 2], [3, 2, 1, 4]]
     tshapes += [tgen.rand_shape(rng, maxn=4, maxcells=96) for _ in range(60 if big else 12)]
@@ -267,12 +299,36 @@ def gen_cases_conv(rng, tier):
         for sc in (False, True):
             T = rand_t(rng, shp, sc)
             cases.append(Case("tfull", {"shape": shp, "T": T}, math.prod(shp) > 1 and any(T["core"])))
+            T = rand_t(rng, shp, sc)
+            T["lay"] = [rng.choice(LAYOUTS + ["F"]) for _ in range(rng.randint(1, 3))]
+            cases.append(Case("tfull", {"shape": shp, "T": T}, math.prod(shp) > 1 and any(T["core"])))
     # ---------------- sums
     for _ in range(150 if big else 40):
         shp = tgen.rand_shape(rng, maxn=4, maxcells=48)
         parts = []
         for _k in range(rng.randint(1, 4)):
-            kind = rng.choice(["d", "s", "k", "t"])
+            kind = rng.choice(["d", "s", "k", "t", "same", "neg"])
+            prev_s = [p for p in parts if p["kind"] == "s"]
+            if kind in ("same", "neg") and not parts:
+                kind = "s"
+            if kind == "same":                   # a sparse part with the stored pattern (same rows, same order) of an earlier one
+                if prev_s:
+                    q = rng.choice(prev_s)
+                    parts.append({"kind": "s", "subs": [list(x) for x in q["subs"]],
+                                  "vals": [rng.choice([-2, -1, 1, 3]) for _ in q["vals"]]})
+                    continue
+                kind = "s"
+            if kind == "neg":                    # exact cancellation: the negation of an earlier part of the same kind
+                q = rng.choice(parts)
+                if q["kind"] == "d":
+                    parts.append({"kind": "d", "data": [-v for v in q["data"]]})
+                elif q["kind"] == "s":
+                    parts.append({"kind": "s", "subs": [list(x) for x in q["subs"]], "vals": [-v for v in q["vals"]]})
+                elif q["kind"] == "k":
+                    parts.append({"kind": "k", "K": {"weights": [-w for w in q["K"]["weights"]], "factors": q["K"]["factors"]}})
+                else:
+                    parts.append({"kind": "t", "T": dict(q["T"], core=[-v for v in q["T"]["core"]])})
+                continue
             if kind == "d":
                 parts.append({"kind": "d", "data": tgen.rand_dense(rng, shp, rng.choice([0.5, 1.0]))})
             elif kind == "s":
@@ -282,11 +338,37 @@ def gen_cases_conv(rng, tier):
                 parts.append({"kind": "k", "K": rand_k(rng, shp, rng.randint(1, 3))})
             else:
                 parts.append({"kind": "t", "T": rand_t(rng, shp, False)})
-        cases.append(Case("sumfull", {"shape": shp, "parts": parts}, math.prod(shp) > 1))
+        cases.append(Case("sumfull", {"shape": shp, "parts": parts, "copy": rng.random() < 0.6}, math.prod(shp) > 1))
     return cases
 
 
 # ---------------------------------------------------------------------------------------- pyttb side
+LAYOUTS = ["C", "slice", "neg", "rot"]
+
+
+def relayout(np, A, lay):
+    """the same logical array in another memory layout: None/'F' Fortran-contiguous (what pyttb holds itself), 'C' C-contiguous,
+    'slice' every second element of a larger C-ordered array (non-contiguous view, garbage in between), 'neg' negative strides,
+    'rot' a transposed view of a C-ordered array with rotated axes (neither C- nor F-contiguous for >= 3 axes, F for 2)"""
+    if lay in (None, "F"):
+        return np.asfortranarray(A)
+    if lay == "C" or A.ndim == 0:
+        return np.ascontiguousarray(A)
+    if lay == "slice":
+        big = np.full(tuple(2 * d for d in A.shape), 99.0 if A.dtype.kind == "f" else 99, dtype=A.dtype)
+        ix = tuple(slice(None, None, 2) for _ in A.shape)
+        big[ix] = A
+        return big[ix]
+    if lay == "neg":
+        ix = tuple(slice(None, None, -1) for _ in A.shape)
+        return np.ascontiguousarray(A[ix])[ix]
+    if lay == "rot":
+        perm = list(range(1, A.ndim)) + [0]
+        inv = [perm.index(k) for k in range(A.ndim)]
+        return np.transpose(np.ascontiguousarray(np.transpose(A, perm)), inv)
+    raise ValueError(lay)
+
+
 def _arr(np, l):
     return None if l is None else np.array(l, dtype=int)
 
@@ -294,16 +376,31 @@ def _arr(np, l):
 def _mk_k(ttb, np, K, shape):
     R = len(K["weights"])
     fm = [np.array(f, dtype=float).reshape((d, R)) for f, d in zip(K["factors"], shape)]
-    return ttb.ktensor([f.copy() for f in fm], np.array(K["weights"], dtype=float), copy=True)
+    Kt = ttb.ktensor([f.copy() for f in fm], np.array(K["weights"], dtype=float), copy=True)
+    if K.get("dt"):      # mixed element types: integer-typed, float32 and float64 factors; "h" = the integer entries halved (dyadic,
+        # exact in every float type), so full(K) * 2^(number of halved factors) is the integer model's array
+        for n, f in enumerate(fm):
+            dt = K["dt"][n % len(K["dt"])]
+            g = f / 2.0 if dt.endswith("h") else f
+            Kt.factor_matrices[n] = np.asfortranarray(g.astype({"i": np.int64, "f4": np.float32, "f4h": np.float32, "f8": np.float64,
+                                                                "f8h": np.float64}[dt]))
+    if K.get("lay"):     # a user assigns arrays of another memory layout to the factor list (as normalize() leaves C-ordered ones)
+        for n, f in enumerate(fm):
+            Kt.factor_matrices[n] = relayout(np, f, K["lay"][n % len(K["lay"])])
+    return Kt
 
 
 def _mk_t(ttb, np, T, shape):
     core = tgen.mk_tensor(ttb, np, T["cshape"], T["core"])
     if T.get("sparse_core"):
-        subs, vals = tgen.dense_to_sparse(T["cshape"], T["core"])
+        subs, vals = (T["csubs"], T["cvals"]) if "csubs" in T else tgen.dense_to_sparse(T["cshape"], T["core"])
         core = tgen.mk_sptensor(ttb, np, T["cshape"], subs, vals)
     fm = [np.array(f, dtype=float).reshape((d, c)) for f, d, c in zip(T["factors"], shape, T["cshape"])]
-    return ttb.ttensor(core, [f.copy() for f in fm], copy=True)
+    Tt = ttb.ttensor(core, [f.copy() for f in fm], copy=True)
+    if T.get("lay"):
+        for n, f in enumerate(fm):
+            Tt.factor_matrices[n] = relayout(np, f, T["lay"][n % len(T["lay"])])
+    return Tt
 
 
 def _ilist(x):
@@ -321,6 +418,35 @@ def _obs_sptenmat(np, M):
     rows = [] if subs.size == 0 else [[int(x) for x in r] for r in subs.reshape((-1, 2))]
     return {"subs": rows, "vals": [tgen.exact(x) for x in np.asarray(M.vals).ravel()], "r": _ilist(M.rdims), "c": _ilist(M.cdims),
             "tshape": [int(d) for d in M.tshape], "shape": [int(d) for d in M.shape], "nnz": int(M.nnz)}
+
+
+def _obs_part(np, ttb, q):
+    """raw stored state of one part of a sumtensor"""
+    if isinstance(q, ttb.tensor):
+        return {"kind": "d", "d": tgen.obs_dense(np, q)}
+    if isinstance(q, ttb.sptensor):
+        return {"kind": "s", "s": tgen.obs_sparse(np, q)}
+    if isinstance(q, ttb.ktensor):
+        return {"kind": "k", "weights": [tgen.exact(x) for x in q.weights], "factors": [tgen.obs_matrix(np, f) for f in q.factor_matrices]}
+    core = q.core
+    return {"kind": "t", "core": tgen.obs_dense(np, core) if isinstance(core, ttb.tensor) else tgen.obs_sparse(np, core),
+            "factors": [tgen.obs_matrix(np, f) for f in q.factor_matrices]}
+
+
+def _part_unchanged(shape, p, q):
+    """does the raw state q observed after the conversions equal the generated part p? (exact integer lists)"""
+    if not isinstance(q, dict) or q.get("kind") != p["kind"]:
+        return False
+    if p["kind"] == "d":
+        return q["d"] == {"shape": list(shape), "data": p["data"]}
+    if p["kind"] == "s":
+        return q["s"]["subs"] == p["subs"] and q["s"]["vals"] == p["vals"] and q["s"]["shape"] == list(shape)
+    if p["kind"] == "k":
+        R = len(p["K"]["weights"])
+        return q["weights"] == p["K"]["weights"] and all((qf == pf) or (R == 0 and qf in ([], [[] for _ in pf]))
+                                                         for qf, pf in zip(q["factors"], p["K"]["factors"]))
+    T = p["T"]
+    return q["core"]["shape"] == T["cshape"] and q["core"].get("data") == T["core"] and q["factors"] == T["factors"]
 
 
 def _obs_coo(np, Cm):
@@ -361,7 +487,7 @@ def run_conv(c):
             Cm = S.spmatrix()
             return {"ok": tgen.obs_dense(np, Cm.toarray()), "coo": _obs_coo(np, Cm)}
         if c.op == "from_array":
-            A = tgen.np_dense(np, a["mshape"], a["mdata"])
+            A = relayout(np, tgen.np_dense(np, a["mshape"], a["mdata"]), a.get("lay"))
             if a["coo"]:
                 t = a["trip"]
                 A = sps.coo_matrix((np.array([x[2] for x in t], dtype=float),
@@ -370,9 +496,9 @@ def run_conv(c):
             M = ttb.sptenmat.from_array(A, _arr(np, a["rd"]), _arr(np, a["cd"]), tuple(a["tshape"]))
             return {"ok": _obs_sptenmat(np, M)}
         if c.op == "tenmat_ctor":
-            data = None if a["dshape"] is None else tgen.np_dense(np, a["dshape"], a["data"])
+            data = None if a["dshape"] is None else relayout(np, tgen.np_dense(np, a["dshape"], a["data"]), a.get("lay"))
             ts = None if a["tshape"] is None else tuple(a["tshape"])
-            M = ttb.tenmat(data, _arr(np, a["rd"]), _arr(np, a["cd"]), ts)
+            M = ttb.tenmat(data, _arr(np, a["rd"]), _arr(np, a["cd"]), ts, copy=a.get("copy", True))
             out = {"ok": _obs_tenmat(np, M)}
             if M.data.size > 0:      # the constructor's verdict is observed on its own; the conversions separately
                 out["back"] = _sub(lambda: tgen.obs_dense(np, M.to_tensor()))
@@ -386,8 +512,20 @@ def run_conv(c):
                     "again": _sub(lambda: _obs_sptenmat(np, M.to_sptensor().to_sptenmat(M.rdims.copy(), M.cdims.copy())))}
         if c.op == "kfull":
             K = _mk_k(ttb, np, a["K"], a["shape"])
-            return {"ok": tgen.obs_dense(np, K.full()), "double": _sub(lambda: tgen.obs_dense(np, K.double())),
-                    "tenmat": _sub(lambda: _obs_tenmat(np, K.to_tenmat(np.array([0]))))}
+            rq = a.get("treq", {"rd": [0], "cd": None, "cy": None})
+            dts = a["K"].get("dt")
+            sc = 1 if not dts else 2 ** sum(1 for n in range(len(a["shape"])) if dts[n % len(dts)].endswith("h"))
+
+            def scaled(ob):      # exact rescaling of the observed values by the power of two the halved factors introduce
+                if sc != 1:
+                    ob["data"] = [(lambda y: int(y) if y == int(y) else y)(x * sc) if not isinstance(x, str) else x for x in ob["data"]]
+                return ob
+
+            def scaled_tm(ob):
+                scaled(ob["data"])
+                return ob
+            return {"ok": scaled(tgen.obs_dense(np, K.full())), "double": _sub(lambda: scaled(tgen.obs_dense(np, K.double()))),
+                    "tenmat": _sub(lambda: scaled_tm(_obs_tenmat(np, K.to_tenmat(_arr(np, rq["rd"]), _arr(np, rq["cd"]), rq["cy"]))))}
         if c.op == "tfull":
             T = _mk_t(ttb, np, a["T"], a["shape"])
             return {"ok": tgen.obs_dense(np, T.full()), "double": _sub(lambda: tgen.obs_dense(np, T.double()))}
@@ -402,8 +540,16 @@ def run_conv(c):
                     parts.append(_mk_k(ttb, np, p["K"], a["shape"]))
                 else:
                     parts.append(_mk_t(ttb, np, p["T"], a["shape"]))
-            st = ttb.sumtensor(parts, copy=True)
-            return {"ok": tgen.obs_dense(np, st.full()), "double": _sub(lambda: tgen.obs_dense(np, st.double()))}
+            st = ttb.sumtensor(parts, copy=a.get("copy", True))
+            first = st.full()
+            out = {"ok": tgen.obs_dense(np, first), "double": _sub(lambda: tgen.obs_dense(np, st.double()))}
+            # history: the same sumtensor converted again; the first result and every part looked at afterwards (raw)
+            out["again"] = _sub(lambda: tgen.obs_dense(np, st.full()))
+            out["first_after"] = tgen.obs_dense(np, first)
+            out["parts_after"] = _sub(lambda: [_obs_part(np, ttb, q) for q in st.parts])
+            if not a.get("copy", True):
+                out["user_after"] = _sub(lambda: [_obs_part(np, ttb, q) for q in parts])
+            return out
     except Exception as ex:
         return {"exc": type(ex).__name__, "msg": str(ex)[:200]}
     raise ValueError(c.op)
@@ -580,14 +726,22 @@ def check_conv(c, o):
         if not isinstance(tm, dict) or "data" not in tm or not _ints_dense(tm["data"]):
             return "false"
         D = tgen.gdense(o["ok"]["shape"], o["ok"]["data"])
-        return f"kfull_ok {K} (Some {D}) && tm_denotes {_gtm(tm)} {D} && nvec_eqb {gnlist(tm['r'])} [0]"
+        rq = a.get("treq", {"rd": [0], "cd": None, "cy": None})
+        return (f"kfull_ok {K} (Some {D}) && tm_denotes {_gtm(tm)} {D} && "
+                f"opt_eqb tm_eqb (zk_to_tenmat {K} {_gopt_nlist(rq['rd'])} {_gopt_nlist(rq['cd'])} {_gcy(rq['cy'])}) (Some {_gtm(tm)}) && "
+                f"opt_eqb dense_eqb (zk_double {K}) (Some {tgen.gdense(o['double']['shape'], o['double']['data'])})")
     if c.op == "tfull":
         T = _gt(a["T"])
         if exc:
             return f"tfull_ok {T} None"
         if not _ints_dense(o["ok"]) or o.get("double") != o["ok"]:
             return "false"
-        return f"tfull_ok {T} (Some {tgen.gdense(o['ok']['shape'], o['ok']['data'])})"
+        D = tgen.gdense(o['ok']['shape'], o['ok']['data'])
+        chk = f"tfull_ok {T} (Some {D}) && dense_eqb (zt_double {T}) {D}"
+        if "csubs" in a["T"]:    # sparse core: pyttb's own route (sptensor.ttm in mode 0, tensor.ttm for the others)
+            G = tgen.gsparse(a["T"]["cshape"], a["T"]["csubs"], a["T"]["cvals"])
+            chk += f" && tfull_sp_ok {G} {_gmat_list(a['T']['factors'])} (Some {D})"
+        return chk
     if c.op == "sumfull":
         ps = []
         for p in a["parts"]:
@@ -604,7 +758,17 @@ def check_conv(c, o):
             return f"sumfull_ok {P} {gnlist(a['shape'])} None"
         if not _ints_dense(o["ok"]) or o.get("double") != o["ok"]:
             return "false"
-        return f"sumfull_ok {P} {gnlist(a['shape'])} (Some {tgen.gdense(o['ok']['shape'], o['ok']['data'])})"
+        chk = f"sumfull_ok {P} {gnlist(a['shape'])} (Some {tgen.gdense(o['ok']['shape'], o['ok']['data'])})"
+        if "again" in o:
+            # second conversion of the same object against the same model; first result and all parts unchanged
+            if not _ints_dense(o["again"]) or o["first_after"] != o["ok"]:
+                return "false"
+            for key in ("parts_after", "user_after"):
+                if key in o and (not isinstance(o[key], list) or len(o[key]) != len(a["parts"]) or
+                                 not all(_part_unchanged(a["shape"], p, q) for p, q in zip(a["parts"], o[key]))):
+                    return "false"
+            chk += f" && sumfull_ok {P} {gnlist(a['shape'])} (Some {tgen.gdense(o['again']['shape'], o['again']['data'])})"
+        return chk
     raise ValueError(c.op)
 
 
@@ -837,16 +1001,27 @@ def oracle_conv(c, o):
                 else:
                     tot += _den_t(p["T"], i)
             want.append(tot)
-        return None if o["ok"]["data"] == want and o["ok"]["shape"] == a["shape"] else "full(sum) differs from the sum of the parts"
+        if o["ok"]["data"] != want or o["ok"]["shape"] != a["shape"]:
+            return "full(sum) differs from the sum of the parts"
+        if o.get("double") != o["ok"]:
+            return "double(sum) differs from full(sum)"
+        if "again" in o:
+            if o["again"] != o["ok"]:
+                return "converting the same sumtensor a second time gives a different array"
+            if o["first_after"] != o["ok"]:
+                return "the tensor returned by the first conversion changed when the sumtensor was converted again"
+            for key in ("parts_after", "user_after"):
+                if key in o and (not isinstance(o[key], list) or
+                                 not all(_part_unchanged(a["shape"], p, q) for p, q in zip(a["parts"], o[key]))):
+                    return "a part of the sumtensor no longer holds its data after the conversion"
+        return None
     return None
 
 
 # ---------------------------------------------------------------------------------------- known findings
-# (A-01, A-02, A-02b, N-C01-2 are repaired in /repo: no trigger, no witness — a regression is reported as a violation)
+# (A-01, A-02, A-02b, N-C01-2, N-C01-3, N-C01-4 are repaired in /repo: no trigger, no witness — a regression is a violation)
 TRIGGERS = {
     "kruskal_rank0": lambda c: c.op == "kfull" and len(c.args["K"]["weights"]) == 0 and len(c.args["shape"]) > 1,
-    "from_array_explicit_zero": lambda c: c.op == "from_array" and c.args["coo"] and any(x[2] == 0 for x in c.args["trip"]),
-    "sptenmat_empty_ctor_nnz": lambda c: c.op == "sptenmat_ctor" and all(c.args[k] is None for k in ("subs", "vals", "rd", "cd")),
 }
 
 
@@ -861,26 +1036,4 @@ def _w_rank0():
         return f"rank-0 ktensor.full() raised {type(ex).__name__}: {ex}"
 
 
-def _w_empty_nnz():
-    import pyttb as ttb
-    try:
-        n = ttb.sptenmat().nnz
-        return None if n == 0 else f"sptenmat().nnz == {n} with no stored value"
-    except Exception as ex:
-        return f"sptenmat().nnz raised {type(ex).__name__}: {ex}"
-
-
-def _w_from_array_zero():
-    import numpy as np
-    import pyttb as ttb
-    from scipy import sparse
-    try:
-        Cm = sparse.coo_matrix((np.array([0.0, 5.0, 7.0]), (np.array([0, 1, 1]), np.array([0, 1, 2]))), shape=(2, 3))
-        M = ttb.sptenmat.from_array(Cm, np.array([0]), np.array([1]), (2, 3))
-        ok = M.subs.tolist() == [[1, 1], [1, 2]] and M.vals.ravel().tolist() == [5.0, 7.0]
-        return None if ok else f"wrong triples {M.subs.tolist()} {M.vals.ravel().tolist()}"
-    except Exception as ex:
-        return f"from_array of a scipy matrix with an explicitly stored zero raised {type(ex).__name__}: {ex}"
-
-
-WITNESSES = {"N-C01-1": _w_rank0, "N-C01-3": _w_empty_nnz, "N-C01-4": _w_from_array_zero}
+WITNESSES = {"N-C01-1": _w_rank0}
